@@ -125,7 +125,10 @@ theorem hCancelWorkflow_legal (c : Cfg) (s : State) (id : Nat) :
   unfold hCancelWorkflow
   simp only []
   split
-  · exact effAll_quietB _ _ (by quiet_tac)
+  · split
+    · simp only [List.flatten_cons, List.flatten_nil, List.append_nil, List.cons_append, List.nil_append]
+      exact effAll_quietB _ _ (by quiet_tac)
+    · exact effAll_quietB _ _ (by quiet_tac)
   · simp only [List.flatten_cons, List.flatten_nil, List.append_nil, List.cons_append, List.nil_append]
     exact effAll_quietB _ _ (by quiet_tac)
 
